@@ -17,6 +17,7 @@ import (
 	"encoding/json"
 	"fmt"
 	"io"
+	"math/rand"
 	"net/http"
 	"net/http/httptest"
 	"regexp"
@@ -76,6 +77,7 @@ func main() {
 			"Concurrent: the same operations from 2..8 goroutines against top-level group / filter / bare verifier in both wirings (quick 40 runs + 120 under the race detector, thorough 1200 + 1400), per-verifier histories " +
 			"{add(request), read->multiset, reset} checked for linearizability with porcupine; the workload also runs under the race detector. " +
 			"API exchanges are drawn from the same distribution as ordinary traffic w.r.t. everything verifiers and filters look at (header present with matching / other / blank value or absent on either side, method, query keys, cookies; API responses carry the drawn headers). " +
+			"Every 256th history is long (1100-1700 mostly failing exchanges through a group-rooted tree, queried three times: >1024 failures per verifier and per tree between resets); a tenth of the exchanges carries a query string net/url cannot parse completely (stray %, ';' separator). " +
 			"Header verifiers also target Host and Transfer-Encoding (kept outside the header map by net/http; messages are built as http.ReadRequest/ReadResponse deliver them, chunked bodies included). " +
 			"Stress runs (quick 16 + 8 under the race detector, thorough 320 + 168): 3-5 goroutines x 60-120 exchanges racing with 2-4 query loops and, in every second run, a reset loop; interval checks on every query (nothing spurious, duplicated or surviving a completed reset, nothing completed-before-the-query missing). " +
 			"Every concurrent run is awaited by quiescence (vh.Await): operations that never return while all martian goroutines are parked = violation C13:stuck (the batch then ends). " +
@@ -587,9 +589,11 @@ func (a *attributor) attribute(msg string, taken map[attrKey]bool, deferUntokene
 		for i, v := range a.vs {
 			switch {
 			case side != cfgx.Req:
-			case v.Kind == cfgx.KVURL && v.Attr("scheme") != "" && !tokenPartDiffers(v, st) && cfgx.Unmet(v, cfgx.Req, st):
+			case v.Kind == cfgx.KVURL && v.Attr("scheme") != "" && !tokenPartDiffers(v, st) && cfgx.Unmet(v, cfgx.Req, st) && (evaluated[i] || ri.Msg.API):
 				fit = append(fit, i)
-			case v.Kind == cfgx.KVQS && cfgx.Malformed(ri.Msg.Query) && evaluated[i]:
+			case v.Kind == cfgx.KVURL && v.Attr("scheme") != "" && !tokenPartDiffers(v, st) && cfgx.Unmet(v, cfgx.Req, st):
+				other = append(other, i)
+			case v.Kind == cfgx.KVQS && cfgx.Malformed(ri.Msg.Query) && (evaluated[i] || ri.Msg.API):
 				fit = append(fit, i)
 			case v.Kind == cfgx.KVQS && cfgx.Malformed(ri.Msg.Query):
 				other = append(other, i)
@@ -674,6 +678,9 @@ func genSeq(r *vh.Run, stream string, idx int) seqCase {
 		o.Top = "group"
 	}
 	c.Tree = cfgx.GenVTree(rng, o)
+	if idx%256 == 3 {
+		return genLongSeq(rng, c)
+	}
 	if idx%10 == 3 {
 		c.Wiring = wBare
 	}
@@ -713,6 +720,32 @@ func genSeq(r *vh.Run, stream string, idx int) seqCase {
 			} else {
 				c.Steps = append(c.Steps, hstep{Op: "reset", Via: "direct"})
 			}
+		}
+	}
+	c.Steps = append(c.Steps, hstep{Op: "query", Via: "direct"})
+	return c
+}
+
+// genLongSeq: a fixed share of every run (every 256th history) is a long
+// history: 1100-1700 exchanges that mostly fail the verifiers of a group-rooted
+// tree, so that single verifiers and the tree as a whole pile up well over a
+// thousand failures between resets; queried three times.
+func genLongSeq(rng *rand.Rand, c seqCase) seqCase {
+	c.Tree = cfgx.GenVTree(rng, cfgx.VGenOpts{MaxDepth: 3, MaxWidth: 3, Top: "group", NoPing: rng.Intn(2) == 0})
+	c.Wiring, c.Proxy = wMartian, false
+	n := 1100 + rng.Intn(600)
+	q1, q2 := n*45/100, n*80/100
+	resetAt := -1
+	if rng.Intn(3) == 0 {
+		resetAt = n / 10
+	}
+	for i := 1; i <= n; i++ {
+		c.Steps = append(c.Steps, hstep{Op: "traffic", Msg: cfgx.GenTrafficBias(rng, c.Tree, i, 70)})
+		switch i {
+		case q1, q2:
+			c.Steps = append(c.Steps, hstep{Op: "query", Via: "direct"})
+		case resetAt:
+			c.Steps = append(c.Steps, hstep{Op: "reset", Via: "direct"})
 		}
 	}
 	c.Steps = append(c.Steps, hstep{Op: "query", Via: "direct"})
@@ -1109,6 +1142,28 @@ func judgeSeq(r *vh.Run, c seqCase) {
 			pat += "+api"
 		}
 		r.Class(base + "|" + pat)
+		// volume: failures held since the last reset, per verifier side and in the whole tree
+		per := map[[2]int]int{}
+		tot, max := 0, 0
+		for k, n := range m.pending {
+			per[[2]int{k.VIdx, int(k.Side)}] += n
+			tot += n
+		}
+		for _, n := range per {
+			if n > max {
+				max = n
+			}
+		}
+		vol := func(n int) string {
+			switch {
+			case n > 1024:
+				return ">1024"
+			case n > 100:
+				return "101-1024"
+			}
+			return "<=100"
+		}
+		r.Class("volume|per-verifier=" + vol(max) + "|tree=" + vol(tot))
 		for _, pc := range m.pathCls {
 			r.Class(pc)
 		}
